@@ -326,7 +326,7 @@ func families(tier string) []seq.Family {
 	if tier == "quick" {
 		return []seq.Family{mapsFamily(2), bytesFamily("decode-bytes<=3/full", full, 3), bytesFamily("decode-bytes<=7/9sym", reduced, 7), lengthsFamily()}
 	}
-	return []seq.Family{mapsFamily(3), bytesFamily("decode-bytes<=3/full", full, 3), bytesFamily("decode-bytes<=9/9sym", reduced, 9), lengthsFamily()}
+	return []seq.Family{mapsFamily(3), bytesFamily("decode-bytes<=3/full", full, 3), bytesFamily("decode-bytes<=8/9sym", reduced, 8), lengthsFamily()}
 }
 
 func init() {
